@@ -217,4 +217,63 @@ Proof.
 Qed.
 
 End Prog.
+
+(* ---------- flat vs grouped ---------- *)
+
+Lemma flatten_ungroup (gs : list (gitem T)) : flatten (ungroup gs) = flatten gs.
+Proof.
+  unfold ungroup. generalize (flatten gs). intro ls. unfold flatten.
+  induction ls as [|l ls IH]; [reflexivity|]. cbn [map flat_map g_leaves app]. now rewrite IH.
+Qed.
+Lemma nest_ids_ungroup (gs : list (gitem T)) : nest_ids (ungroup gs) = [].
+Proof.
+  unfold ungroup. generalize (flatten gs). intro ls. unfold nest_ids.
+  induction ls as [|l ls IH]; [reflexivity|]. cbn [map flat_map g_nests app]. exact IH.
+Qed.
+Lemma nestdefs_ungroup (gs : list (gitem T)) : flat_map (g_nestdef z0) (ungroup gs) = [].
+Proof.
+  unfold ungroup. generalize (flatten gs). intro ls.
+  induction ls as [|l ls IH]; [reflexivity|]. cbn [map flat_map g_nestdef app]. exact IH.
+Qed.
+Lemma tops_ungroup (gs : list (gitem T)) : map g_top (ungroup gs) = map lf_id (flatten gs).
+Proof. unfold ungroup. rewrite map_map. reflexivity. Qed.
+
+(* the flat program is the grouped program of the trivial grouping *)
+Lemma flat_prog_ungroup (gs : list (gitem T)) :
+  flat_prog tk limit t0 (flatten gs) = nest_prog tk limit t0 z0 (ungroup gs).
+Proof.
+  unfold flat_prog, nest_prog. now rewrite tops_ungroup, flatten_ungroup, nestdefs_ungroup, app_nil_r.
+Qed.
+
+Lemma wf_ungroup (gs : list (gitem T)) : wf_group gs -> wf_group (ungroup gs).
+Proof.
+  intros [ND P]. split; [|now rewrite flatten_ungroup].
+  rewrite flatten_ungroup, nest_ids_ungroup, app_nil_r.
+  apply NoDup_cons_iff in ND as [N0 ND]. constructor.
+  - intro X. apply N0. apply in_or_app. now left.
+  - eapply NoDup_app_l; exact ND.
+Qed.
+
+(* time laws used by the comparison (see Proofs/SchedFlatSim.v) *)
+Definition flat_laws : Prop :=
+  (forall a : T, tleb a a = true) /\
+  (forall a b : T, tleb a b = true -> tleb a (tadd b tk) = true) /\
+  (forall a : T, tadd a (tabs z0) = a).
+
+Theorem flatten_run (gs : list (gitem T)) c1 f1 c2 f2 :
+  flat_laws -> wf_group gs ->
+  forallb no_asap_then_positive (grouped_leaves gs) = true ->
+  oof (do_run c1 f1 (nest_prog tk limit t0 z0 gs)) = false ->
+  oof (do_run c2 f2 (flat_prog tk limit t0 (flatten gs))) = false ->
+  leaf_view (map lf_id (flatten gs)) (do_run c1 f1 (nest_prog tk limit t0 z0 gs)) =
+  leaf_view (map lf_id (flatten gs)) (do_run c2 f2 (flat_prog tk limit t0 (flatten gs))).
+Proof.
+  intros (L1 & L2 & L3) WF Hy O1 O2.
+  rewrite flat_prog_ungroup in *.
+  destruct (nest_run_spec gs WF c1 f1 O1) as (r1 & S1 & V1).
+  destruct (nest_run_spec (ungroup gs) (wf_ungroup gs WF) c2 f2 O2) as (r2 & S2 & V2).
+  rewrite flatten_ungroup in V2. rewrite V1, V2. f_equal.
+  exact (spec_run_sim tk (tabs z0) L1 L2 L3 c1 c2 limit t0 gs r1 r2 Hy S1 S2).
+Qed.
+
 End Top.
